@@ -82,6 +82,22 @@ theorem C01_size_is_max_end (env : Env) (fs : List Field) :
     eval env (synthSize fs) = (ViewSpec.size (extents env fs)).map Val.int :=
   eval_synthSize env fs
 
+/-- Consequently a view whose size is known to be `r` has every present, located physical field
+inside `[0, r)`: `IsComplete()` (buffer length ≥ `r`) means no present field was clamped — the
+fact behind "an Ok view of size n depends only on its first n bytes". -/
+theorem C01_size_covers_present_fields (env : Env) (fs : List Field) (r : Int)
+    (h : eval env (synthSize fs) = some (.int r)) :
+    0 ≤ r ∧ ∀ s z : Int, (some true, some s, some z) ∈ extents env fs → s + z ≤ r := by
+  rw [eval_synthSize] at h
+  cases hs : ViewSpec.size (extents env fs) with
+  | none => rw [hs] at h; cases h
+  | some r' =>
+    rw [hs] at h
+    have hr : r' = r := by simpa using h
+    subst hr
+    unfold ViewSpec.size at hs
+    exact ⟨sizeFrom_ge _ _ _ hs, sizeFrom_covers _ _ _ hs⟩
+
 /-- `$next` is the end of the previous physical field. -/
 theorem C01_next_is_prev_end (env : Env) (prevStart prevSize : Expr) (s z : Int)
     (hs : evalInt env prevStart = some s) (hz : evalInt env prevSize = some z) :
